@@ -1113,6 +1113,19 @@ def c04_groups(seed, tier):
     g.rules = [g.choice([g.ref(i + 2) for i in range(len(roots))])] + roots
     add(g)
     nostate.append(g)
+    # (d) classes with several members of every kind in every order: the scanner of the class text keeps state between members
+    members = ["a", "b-d", "\\n", "\\t", "\\\\", "\\]", "\\x41", "\\u00e9", "\\U0001F600", "\\101", "\\pL", "\\pN", "_", "-"]
+    g = Gram(len(groups) + 1)
+    roots = []
+    for i in range(60 if tier == "quick" else 400):
+        ms = [rng.choice(members) if rng.random() < 0.5 else "\\p{%s}" % rng.choice(ucl) for _ in range(rng.randint(2, 4))]
+        if "-" in ms:           # a plain dash is written last
+            ms = [m for m in ms if m != "-"] + ["-"]
+        txt = "[" + rng.choice(["", "", "^"]) + "".join(ms) + "]" + rng.choice(["", "", "i"])
+        roots.append(g.mk(k="cls", want=list(txt.encode())))
+    g.rules = [g.choice([g.ref(i + 2) for i in range(len(roots))])] + roots
+    add(g)
+    nostate.append(g)
     return groups, nostate, len(ucl)
 
 
